@@ -179,6 +179,23 @@ def gen(rng, n, tier):  # noqa: F811
             bounds = [ri * m * k for k in range(1, len(c['steps']) + 1)] + ([2 * ri] if c['fmt'] == 'temperature' else [])
             for x in _pick_cuts_at(rng, bs, ri * nrec, bounds, 14):
                 out.append(dict(kind='layered-cut', content=c, cut=x))
+        if c['fmt'] == 'wind':
+            # wind: cuts evaluated in Coq (Model/Wind.v): the end of every step's data (the dummy record missing), whole
+            # steps, just past a step's data; two cuts inside the first step where the reader never returns (region 15,
+            # 1 s limit each) and a few cuts after the first step
+            hdr = 20 if c.get('lstagger') is not None else 16
+            dat = 4 * c['nx'] * c['ny'] + 8
+            body = hdr + 2 * c['nz'] * dat
+            stepb = body + 12
+            total = stepb * len(c['steps'])
+            cuts = set()
+            for k in range(1, len(c['steps']) + 1):
+                cuts.update([k * stepb, k * stepb - 12, k * stepb - 8, k * stepb - 13, (k - 1) * stepb + body + 4])
+            cuts.update([hdr + rng.randint(0, 2 * c['nz'] - 1) * dat + rng.choice([4, 8, dat]), rng.choice([12, hdr, hdr - 1, 11])])
+            for _ in range(4):
+                cuts.add(rng.randint(min(total - 1, body + 4), total - 1))
+            for x in sorted(x for x in cuts if 0 <= x < total):
+                out.append(dict(kind='wind-cut', content=c, cut=x, guard=1.0))
     # lateral-boundary files: a subset of cuts evaluated in Coq (Model/Lbdy.v); the full Python sweep of every prefix
     # runs on the lateral_boundary share of the met-sweep stream above (and on every third file of this stream)
     for i in range(max(1, n // 6)):
